@@ -133,3 +133,40 @@ pub fn cmd_fold(args: &[String]) {
     }
     writeln!(w, "FR {} {}", lo, hi).unwrap();
 }
+
+/// `props <file>`: lines "name-or-dash TAB value TAB unicode_sets(0/1)"; prints the lookup result.
+pub fn cmd_props(args: &[String]) {
+    let text = std::fs::read_to_string(&args[0]).unwrap();
+    let stdout = std::io::stdout();
+    let mut w = std::io::BufWriter::new(stdout.lock());
+    for line in text.lines() {
+        let f: Vec<&str> = line.split('\t').collect();
+        if f.len() < 3 {
+            continue;
+        }
+        let name = if f[0] == "-" { None } else { Some(f[0]) };
+        let us = f[2] == "1";
+        let r = property_lookup(name, f[1], us);
+        let mut l = format!("L {} {} {}", crate::dump::hex(f[0].as_bytes()), crate::dump::hex(f[1].as_bytes()), f[2]);
+        match r {
+            None => l.push_str(" N"),
+            Some((ivs, strs)) => {
+                if strs.is_empty() {
+                    write!(l, " C {}", ivs.len()).unwrap();
+                    for (a, b) in ivs {
+                        write!(l, " {} {}", a, b).unwrap();
+                    }
+                } else {
+                    write!(l, " S {}", strs.len()).unwrap();
+                    for s in strs {
+                        write!(l, " {}", s.len()).unwrap();
+                        for c in s {
+                            write!(l, " {}", c).unwrap();
+                        }
+                    }
+                }
+            }
+        }
+        writeln!(w, "{}", l).unwrap();
+    }
+}
